@@ -5,9 +5,10 @@
 (* FALSE on the event; EventDrift(ev, pre) the L2 (implementation-shaped)   *)
 (* disagreements.                                                           *)
 (***************************************************************************)
-EXTENDS FermiAbs
+EXTENDS FuseAbs
 
 Has(r, f) == f \in DOMAIN r
+Labels(x) == IF IsFermi(x) THEN x.oddpos ELSE <<>>
 Flag(a, f) == f \in DOMAIN a /\ a[f] = TRUE
 Ins(ev, pre, i) == pre[ev.in[i]]
 Outs(ev, i) == ev.regs[ev.out[i]]
@@ -322,6 +323,30 @@ FermiFails(ev, pre) ==
     [] ev.op = "to_dense" -> FeToDense(ev, pre)
     [] OTHER -> {}
 
+
+---------------------------------------------------------------------------
+\* fuse / unfuse (C05), for abelian and fermionic arrays alike
+Groups1(gs) == [g \in 1..Len(gs) |-> [i \in 1..Len(gs[g]) |-> gs[g][i] + 1]]
+FuseEv(ev, pre) ==
+  LET x == Ins(ev, pre, 1)
+      groups == Groups1(ev.args.groups)
+      en == FuseEnabled(x, groups)
+           /\ (Has(ev.args, "mode") => ev.args.mode \in {"auto", "insert", "concat"})
+  IN Judge(ev, en, LET r == Outs(ev, 1) IN
+       F(IsArray(r) /\ Valid(r), "C05.fuse.result_valid") \cup
+       (IF IsArray(r) /\ Valid(r) /\ AllExact(r) THEN FuseFails(x, groups, r, "C05.fuse")
+                                                  \cup F(Labels(r) = Labels(x), "C05.fuse.labels") ELSE {}),
+       "C05.fuse")
+UnfuseEv(ev, pre) ==
+  LET x == Ins(ev, pre, 1)
+      ax == NormAx(ev.args.axis, Rank(x))
+      en == IsFused(x.ix[ax])
+  IN Judge(ev, en, LET r == Outs(ev, 1) IN
+       F(IsArray(r) /\ Valid(r), "C05.unfuse.result_valid") \cup
+       (IF IsArray(r) /\ Valid(r) /\ AllExact(r) THEN UnfuseFails(x, ax, r, "C05.unfuse")
+                                                  \cup F(Labels(r) = Labels(x), "C05.unfuse.labels") ELSE {}),
+       "C05.unfuse")
+
 ---------------------------------------------------------------------------
 \* relational pseudo-events: the driver names registers, the SPEC compares them
 \* args.clause names the clause, args.how the relation
@@ -334,7 +359,6 @@ SameBlocks(x, y) ==
         /\ BlockOf(y, x.blocks[i].s).dt = x.blocks[i].dt
   /\ \A j \in 1..Len(y.blocks) : ~HasSector(x, y.blocks[j].s) =>
         \A q \in 1..Len(y.blocks[j].data) : y.blocks[j].data[q] = VZero
-Labels(x) == IF IsFermi(x) THEN x.oddpos ELSE <<>>
 SameValue(x, y) ==
   IF IsArray(x) /\ IsArray(y) THEN Den(x) = Den(y) /\ Labels(x) = Labels(y) /\ x.kind = y.kind /\ x.sym = y.sym
   ELSE IF IsScalar(x) /\ IsScalar(y) THEN x.v = y.v
@@ -354,6 +378,23 @@ PseudoFails(ev, pre) ==
   IN CASE ev.args.how = "same" ->
             IF ExactVal(x) /\ ExactVal(y) THEN F(SameValue(x, y), c) ELSE {}
        [] ev.args.how = "obs" -> F(Obs(x) = Obs(y), c)
+       [] ev.args.how = "array_equal_den" ->
+            IF IsArray(x) /\ IsArray(y) /\ AllExact(x) /\ AllExact(y)
+            THEN F(x.ix = y.ix /\ Den(x) = Den(y) /\ Labels(x) = Labels(y), c) ELSE {}
+       [] ev.args.how = "same_decoded" ->
+            \* equal once every fused leg is read back through its own sub-index table
+            IF IsArray(x) /\ IsArray(y) /\ AllExact(x) /\ AllExact(y)
+            THEN LET fx == {j \in 1..Rank(x) : IsFused(x.ix[j])}
+                     fy == {j \in 1..Rank(y) : IsFused(y.ix[j])}
+                 IN F(/\ fx = fy /\ x.charge = y.charge /\ Duals(x) = Duals(y) /\ Labels(x) = Labels(y)
+                      /\ AllDecodable(x, fx) /\ AllDecodable(y, fy)
+                      /\ DecodedElems(x, fx) = DecodedElems(y, fy), c)
+            ELSE {}
+       [] ev.args.how = "array_equal" ->
+            \* identical arrays up to the order in which blocks / pending signs are stored
+            F(/\ IsArray(x) /\ IsArray(y) /\ x.ix = y.ix /\ x.charge = y.charge /\ x.sym = y.sym
+              /\ SeqRange(x.blocks) = SeqRange(y.blocks) /\ Len(x.blocks) = Len(y.blocks)
+              /\ SeqRange(x.phases) = SeqRange(y.phases) /\ Labels(x) = Labels(y), c)
        [] ev.args.how = "blocks" -> IF AllExact(x) /\ AllExact(y) THEN F(SameBlocks(x, y) /\ Labels(x) = Labels(y), c) ELSE {}
        [] ev.args.how = "norm2" ->
             \* x : scalar, y : array;  x = sum |y|^2
@@ -385,6 +426,8 @@ AbelianFails(ev, pre) ==
 OpFails(ev, pre) ==
   IF ev.op = "init" \/ ev.in = <<>> THEN {}
   ELSE IF ev.op = "rel" THEN PseudoFails(ev, pre)
+  ELSE IF ev.op = "fuse" THEN FuseEv(ev, pre)
+  ELSE IF ev.op = "unfuse" THEN UnfuseEv(ev, pre)
   ELSE LET x == Ins(ev, pre, 1) IN
        IF IsArray(x) /\ ~IsFermi(x) THEN AbelianFails(ev, pre)
        ELSE IF IsArray(x) /\ IsFermi(x) THEN FermiFails(ev, pre)
